@@ -66,6 +66,7 @@ theorem bad_acks_harmless (s : St) (hr : Reachable s) (c : Call) (hb : badAck s 
   cases c with
   | create ops srs => exact absurd hb (by simp [badAck])
   | savepoint ops srs => exact absurd hb (by simp [badAck])
+  | redeploy => exact absurd hb (by simp [badAck])
   | opAck op cp tag =>
     cases hp : s.pending with
     | none => simp [step, hp]
@@ -113,9 +114,10 @@ theorem bad_acks_harmless (s : St) (hr : Reachable s) (c : Call) (hb : badAck s 
       · simp [hid]
 
 /-- At most one checkpoint is in progress: while one is pending `CreateCheckpoint` is refused and changes
-nothing, and over any call sequence (hence every prefix) started checkpoints exceed finished ones by ≤ 1. -/
+nothing, and over any call sequence (hence every prefix), redeployments included, every started checkpoint is
+finished, abandoned by a redeployment, or the single pending one. -/
 theorem one_pending (calls : List Call) :
-    (createdIds St.init calls).length ≤ (published St.init calls).length + 1 ∧
+    (createdIds St.init calls).length ≤ (published St.init calls).length + abandoned St.init calls + 1 ∧
     ∀ (s : St) (p : Snap) (ops srs : List Nat), s.pending = some p →
       step s (.create ops srs) = (s, .inProgress, none) := by
   refine ⟨?_, ?_⟩
@@ -124,6 +126,29 @@ theorem one_pending (calls : List Call) :
     rw [hn] at this
     simpa using this
   · intro s p ops srs hp; simp [step, hp]
+
+/-- A redeployment (`RegisterSourceSplitter`) abandons the pending checkpoint and leaves the id counter alone;
+afterwards — and in every reachable state — an acknowledgement naming any id other than the last one handed
+out (an abandoned or finished checkpoint, or a future one) changes nothing and publishes nothing. Together
+with `ids_strictly_increase` (the next checkpoint gets a larger id than the abandoned one) late
+acknowledgements of an abandoned checkpoint can never enter a later checkpoint. -/
+theorem stale_acks_rejected (s : St) (hr : Reachable s) :
+    step s .redeploy = ({ s with pending := none }, .ok, none) ∧
+    ∀ cp, cp ≠ s.cid → ∀ op tag sr splits,
+      ((step s (.opAck op cp tag)).1 = s ∧ (step s (.opAck op cp tag)).2.2 = none ∧
+        (step s (.opAck op cp tag)).2.1 ≠ .ok) ∧
+      ((step s (.srAck sr cp splits)).1 = s ∧ (step s (.srAck sr cp splits)).2.2 = none ∧
+        (step s (.srAck sr cp splits)).2.1 ≠ .ok) := by
+  obtain ⟨hist, hi⟩ := reachable_inv hr
+  refine ⟨rfl, ?_⟩
+  intro cp hcp op tag sr splits
+  cases hp : s.pending with
+  | none => simp [step, hp]
+  | some p =>
+    have hid : p.id ≠ cp := by
+      have := (hi p hp).2.2.1
+      omega
+    simp [step, hp, hid]
 
 /-- Ids handed out strictly increase, and so do the ids of the published snapshots. -/
 theorem ids_strictly_increase (calls : List Call) :
@@ -140,7 +165,7 @@ theorem ids_increase_across_restarts (files0 : List Nat) (as : List Publish.Act)
       (step s.store c).1.cid = n := by
   have hi := Publish.run_inv as (Publish.inv_init files0) h
   intro n hn
-  rcases step_shape s.store c with h' | h' | h' <;> rw [h'.1] at hn <;> simp at hn
+  rcases step_shape s.store c with h' | h' | h' | h' <;> rw [h'.1] at hn <;> simp at hn
   subst hn
   refine ⟨fun w hw => ?_, Nat.lt_succ_self _, h'.2.2.2.1⟩
   have := hi.wrCid w hw
@@ -169,6 +194,16 @@ example : (published St.init demo).map (fun s => (s.id, s.opEntries.map (fun e =
     = [(1, [(1, 7), (2, 8)], [4, 5], true), (2, [(1, 3)], [], false)] := by decide
 
 example : createdIds St.init demo = [1, 2] := by decide
+
+/-- a redeployment while checkpoint 1 is pending (op 1 has acknowledged): the next checkpoint is 2, the late
+acknowledgement of 1 is refused and 2 is published with the acknowledgements sent for it -/
+def demoRedeploy : List Call :=
+  [.create [1, 2] [1], .opAck 1 1 5, .redeploy, .create [1, 2] [1], .opAck 2 1 6, .opAck 1 2 7, .opAck 2 2 8,
+   .srAck 1 2 [3]]
+
+example : createdIds St.init demoRedeploy = [1, 2] ∧ abandoned St.init demoRedeploy = 1 ∧
+    (published St.init demoRedeploy).map (fun s => (s.id, s.opEntries.map (fun e => (e.op, e.tag)), s.splitStates))
+      = [(2, [(1, 7), (2, 8)], [3])] := by decide
 
 example : ∃ s c, Reachable s ∧ badAck s c ∧ (∀ p, s.pending = some p → p.ops ≠ [] ∨ p.srs ≠ []) ∧ s.pending.isSome :=
   ⟨finalState St.init [.create [1] [1], .srAck 1 1 [3]], .srAck 1 1 [3], ⟨_, rfl⟩,
